@@ -46,7 +46,7 @@ def _case_formulas(op, a, b):
         out.append(('cell', '=A1%sB1' % op, {'A1': a, 'B1': b}))
         # the operands as *results* of other operators (numpy scalars inside the library):
         # the same value must behave the same wherever it comes from
-        wrap = {'n': '(%s+0)', 't': '(%s&"")', 'b': '(%s=TRUE)'}
+        wrap = {'n': 'SUM(%s)', 't': '(%s&"")', 'b': 'IF(%s,SUM(1)=1,SUM(1)=2)'}
 
         def comp(v, ref):
             if v['k'] in wrap and not v.get('e', 0):
@@ -55,6 +55,17 @@ def _case_formulas(op, a, b):
         ca, cb = comp(a, 'A1'), comp(b, 'B1')
         if (ca, cb) != ('A1', 'B1'):
             out.append(('cell', '=%s%s%s' % (ca, op, cb), {'A1': a, 'B1': b}))
+
+        def comp_lit(v, t):
+            if v['k'] == 'b':
+                return 'ISNUMBER(1)' if v['b'] else 'ISERROR(1)'
+            if v['k'] == 'n' and not v.get('e', 0):
+                return 'SUM(%s)' % t
+            return t
+        if la is not None and lb is not None:
+            xa, xb = comp_lit(a, la), comp_lit(b, lb)
+            if (xa, xb) != (la, lb):
+                out.append(('lit', '=%s%s%s' % (xa, op, xb), None))
     return out
 
 
